@@ -76,8 +76,14 @@ def scenario_for(seed, index, tier, _depth=0, _proto=None):
         mid = rng.choice([0, 1, 100])
         for _ in range(n):
             pos = rng.randint(0, len(steps))
-            data = bytes(rng.randrange(256) for _ in range(
-                rng.choice([0, 3, 300]))).hex()
+            n_data = rng.choice([0, 3, 300])
+            if T1 in (1, 64, 256) and rng.random() < 0.5:
+                # uncompressed size of the request = T-1, T or T+1 (a
+                # vanilla server compresses from size >= T on)
+                head = len(wire.varint(ids['cb.login.plugin_request'])) + \
+                    len(wire.varint(mid)) + len(wire.string('ch:%d' % mid))
+                n_data = max(T1 + rng.choice([-1, 0, 0, 1]) - head, 0)
+            data = bytes(rng.randrange(256) for _ in range(n_data)).hex()
             steps.insert(pos, ['plugin', mid, 'ch:%d' % mid, data])
             plugins.append(mid)
             mid += rng.choice([1, 127, 1000])
